@@ -307,5 +307,7 @@ def sorted_tests(suite_or_case, unpack_outer=False):
         raise ValueError(f"Duplicate test ids detected: {pformat(duplicates)}")
 
     tests = _flatten_tests(suite_or_case, unpack_outer=unpack_outer)
-    tests.sort()
+    # Sort on the id alone: a custom suite without tests has no id (it sorts
+    # first) and suites themselves are not orderable.
+    tests.sort(key=lambda id_and_test: id_and_test[0] or "")
     return unittest.TestSuite([test for (sort_key, test) in tests])
